@@ -230,6 +230,19 @@ def execute(trace, ctx):
         ctx.violate(P, "load-raised", f"SystemGro raised {type(e).__name__}: {e}")
         return
     ctx.op("load", "ok")
+    view_path = path
+    if len(trace["ops"]) % 5 == 1 and not trace.get("open_file"):
+        # after loading: the file is renamed and a DIFFERENT system (same atom count, every residue renamed) is written
+        # under the old name -- the view keeps describing the file it loaded
+        os.rename(path, path[:-4] + "_loaded.gro")
+        ls_ = text.split("\n")
+        n_at_ = int(ls_[1])
+        for k_ in range(n_at_):
+            ls_[2 + k_] = "%5d%-5s" % (1 + k_ // 3, "XXX") + ls_[2 + k_][10:]
+        with open(path, "w") as f_:
+            f_.write("\n".join(ls_))
+        ctx.fault("file_replaced_under_its_name_after_loading")
+        view_path = path[:-4] + "_loaded.gro"
     sizes = {len(r) for r in expected}
     if any(expected[i][0][1] == expected[i + 1][0][1] and len(expected[i]) != len(expected[i + 1]) for i in range(n - 1)):
         ctx.probe("equal_name_different_size_adjacent")
@@ -361,7 +374,7 @@ def execute(trace, ctx):
         import gc
         got = []
         try:
-            it = iter(SystemGro(path))
+            it = iter(SystemGro(view_path))
             got = []
             for k, res in enumerate(it):
                 if k == 1:
